@@ -208,6 +208,15 @@ def run_impl(kind, cur, has_ev, pilot, voltage, period, newcomer_offset=0, rereg
     out["plugin_err"] = perr
     out["ev_after_plugin"] = None if evse.ev is None else (7 if evse.ev is ev else 99)
     out["pilot_kept_on_refusal"] = (perr is None) or float(evse.current_pilot) == pilot_before
+    # the advertised maximum (inf for an unbounded EVSE) must be accepted when the NETWORK applies it
+    try:
+        col = np.zeros((len(net.station_ids), 1))
+        for j, sid in enumerate(net.station_ids):
+            col[j, 0] = iface.max_pilot_signal("S") if sid == "S" else net._EVSEs[sid].current_pilot
+        net.update_pilots(col, 0, period)
+        out["adv_max_via_network"] = None
+    except Exception as e:  # noqa
+        out["adv_max_via_network"] = type(e).__name__
     ev3 = EV(0, 10, 50, "nowhere", "sess3", Battery(100, 0, 100))
     try:
         net.plugin(ev3)
@@ -234,6 +243,9 @@ def rand_kind(rng):
         return ("D", de, mx)
     n = rng.randint(0, 6)
     rates = [rng.choice(grid + [6.5, 7.25, 12.125]) for _ in range(n)]
+    if rng.random() < 0.15:
+        # bidirectional / discharge levels, with or without an explicit 0
+        rates = [rng.choice([-16, -8, -6, -12.5]) for _ in range(rng.randint(1, 3))] + [r for r in rates if r != 0 or rng.random() < 0.3]
     if rng.random() < 0.3:
         rates = rates + rates[:2]          # duplicates
     rng.shuffle(rates)
@@ -332,6 +344,8 @@ def monitor(case):
                 return "rejected second pilot changed state (station pilot %r -> %r)" % (i["current_pilot"], i["current_pilot2"])
     if ordered and not all(i["advertised_accepted"]):
         return "an advertised value is not accepted"
+    if ordered and not inp.get("sibling") and i.get("adv_max_via_network") is not None:
+        return "the advertised maximum pilot is rejected when applied through the network (%s)" % i["adv_max_via_network"]
     if not i["iface_matches_evse"]:
         return "Interface / infrastructure info advertise other limits than the EVSE has"
     if i["unknown_station_err"] != "KeyError":
